@@ -95,7 +95,8 @@ func Build(env *ex.Env, dir, harnessDir string, items []*Item, race bool) (*Batc
 			out := fmt.Sprintf("g%d%s", j.it.Index, suffix(j.variant))
 			od := filepath.Join(dir, out)
 			os.MkdirAll(od, 0o755)
-			os.WriteFile(filepath.Join(od, "g.bnf"), []byte(j.it.G.Source()), 0o644)
+			src := strings.ReplaceAll(j.it.G.Source(), "TOKENPKG", "vb/"+out+"/token")
+			os.WriteFile(filepath.Join(od, "g.bnf"), []byte(src), 0o644)
 			args := append(append([]string{}, j.flags...), "-o", out, filepath.Join(out, "g.bnf"))
 			r := env.Run(dir, nil, args...)
 			mu.Lock()
